@@ -410,21 +410,23 @@ func e2eScenarios(r *verifh.Rand, v6 bool) []e2eCall {
 
 // ---- one run ----------------------------------------------------------------------------
 
-func e2eRun(t *testing.T, out *verifh.Out, tpt int, dir int, v6 bool, withMapped bool, calls []e2eCall, keySeed byte) {
-	rec := &e2eRec{}
-	ds := dssync.MutexWrap(datastore.NewMapDatastore())
-	real, err := conngater.NewBasicConnectionGater(ds)
-	if err != nil {
-		t.Fatal(err)
+// dial-context options of G's dial (opt): 0 plain, 1 WithForceDirectDial,
+// 2 WithSimultaneousConnect(client), 3 WithAllowLimitedConn, 4 WithNoDial (NewStream)
+func e2eDialCtx(ctx context.Context, opt int) context.Context {
+	switch opt {
+	case 1:
+		return network.WithForceDirectDial(ctx, "c10")
+	case 2:
+		return network.WithSimultaneousConnect(ctx, true, "c10")
+	case 3:
+		return network.WithAllowLimitedConn(ctx, "c10")
+	case 4:
+		return network.WithNoDial(ctx, "c10")
 	}
-	g := &e2eGater{inner: real, rec: rec}
-	G, gn := e2eSwarm(t, e2eKey(keySeed), tpt, v6, g, rec)
-	defer G.Close()
-	R, _ := e2eSwarm(t, e2eKey(keySeed+101), tpt, v6, nil, nil)
-	defer R.Close()
-	rec.remote = R.LocalPeer()
-	other, _ := peer.IDFromPrivateKey(e2eKey(keySeed + 53))
+	return ctx
+}
 
+func e2eApplyCalls(t *testing.T, ds datastore.Datastore, g *e2eGater, real *conngater.BasicConnectionGater, calls []e2eCall, rp, other peer.ID) {
 	for _, c := range calls {
 		if c.ev == 4 {
 			ng, err := conngater.NewBasicConnectionGater(ds)
@@ -440,7 +442,7 @@ func e2eRun(t *testing.T, out *verifh.Out, tpt int, dir int, v6 bool, withMapped
 		var err error
 		switch {
 		case c.kind == 0:
-			p := R.LocalPeer()
+			p := rp
 			if c.p != 1 {
 				p = other
 			}
@@ -462,8 +464,63 @@ func e2eRun(t *testing.T, out *verifh.Out, tpt int, dir int, v6 bool, withMapped
 			t.Fatalf("c10 e2e: rule call failed: %v", err)
 		}
 	}
+}
 
-	line := []int64{1, int64(dir), int64(tpt)}
+func e2eRun(t *testing.T, out *verifh.Out, tpt int, dir int, opt int, v6 bool, withMapped bool, calls []e2eCall, keySeed byte) {
+	rec := &e2eRec{}
+	ds := dssync.MutexWrap(datastore.NewMapDatastore())
+	real, err := conngater.NewBasicConnectionGater(ds)
+	if err != nil {
+		t.Fatal(err)
+	}
+	g := &e2eGater{inner: real, rec: rec}
+	G, gn := e2eSwarm(t, e2eKey(keySeed), tpt, v6, g, rec)
+	defer G.Close()
+	R, _ := e2eSwarm(t, e2eKey(keySeed+101), tpt, v6, nil, nil)
+	defer R.Close()
+	rec.remote = R.LocalPeer()
+	other, _ := peer.IDFromPrivateKey(e2eKey(keySeed + 53))
+
+	holePunch := opt == 5
+	hpDone := make(chan struct{})
+	hpCtx, hpCancel := context.WithCancel(context.Background())
+	defer hpCancel()
+	if holePunch {
+		// a server-role QUIC hole punch of G towards R's address is in flight
+		// while the rules are written; R then connects inbound from that address
+		rec.addrs = R.ListenAddresses()
+		G.Peerstore().AddAddrs(R.LocalPeer(), rec.addrs, peerstore.PermanentAddrTTL)
+		go func() {
+			defer close(hpDone)
+			c, err := G.DialPeer(network.WithSimultaneousConnect(hpCtx, false, "c10"), R.LocalPeer())
+			if err == nil && c != nil {
+				out.Cover("e2e.holepunch.dial-got-the-inbound-conn")
+			}
+		}()
+		for i := 0; i < 200; i++ {
+			rec.mu.Lock()
+			started := false
+			for _, e := range rec.evs {
+				started = started || e[0] == 3
+			}
+			rec.mu.Unlock()
+			if started {
+				break
+			}
+			time.Sleep(10 * time.Millisecond)
+		}
+		time.Sleep(60 * time.Millisecond)
+	} else {
+		close(hpDone)
+	}
+	e2eApplyCalls(t, ds, g, real, calls, R.LocalPeer(), other)
+	if holePunch {
+		rec.mu.Lock()
+		rec.evs = nil
+		rec.mu.Unlock()
+	}
+
+	line := []int64{1, int64(dir), int64(tpt + 16*opt)}
 	ctx, cancel := context.WithTimeout(context.Background(), 12*time.Second)
 	defer cancel()
 	var addrsEnc []int64
@@ -490,7 +547,13 @@ func e2eRun(t *testing.T, out *verifh.Out, tpt int, dir int, v6 bool, withMapped
 			reachable = 0
 		}
 		G.Peerstore().AddAddrs(R.LocalPeer(), rec.addrs, peerstore.PermanentAddrTTL)
-		_, _ = G.DialPeer(ctx, R.LocalPeer())
+		if opt == 4 {
+			if st, err := G.NewStream(e2eDialCtx(ctx, opt), R.LocalPeer()); err == nil {
+				st.Reset()
+			}
+		} else {
+			_, _ = G.DialPeer(e2eDialCtx(ctx, opt), R.LocalPeer())
+		}
 	} else {
 		addrsEnc = append(addrsEnc, 1)
 		addrsEnc = append(addrsEnc, encIP(loop)...)
@@ -516,6 +579,8 @@ func e2eRun(t *testing.T, out *verifh.Out, tpt int, dir int, v6 bool, withMapped
 		time.Sleep(10 * time.Millisecond)
 	}
 	gnotifs := gn.count(R.LocalPeer())
+	hpCancel()
+	<-hpDone
 
 	rec.mu.Lock()
 	evs := append([][4]int64{}, rec.evs...)
@@ -566,6 +631,10 @@ func e2eRun(t *testing.T, out *verifh.Out, tpt int, dir int, v6 bool, withMapped
 	line = append(line, idxs...)
 	name := fmt.Sprintf("e2e.tpt%d.dir%d", tpt, dir)
 	out.Cover(name)
+	out.Cover(fmt.Sprintf("e2e.dir%d.ctxopt%d", dir, opt))
+	if refused {
+		out.Cover(fmt.Sprintf("e2e.dir%d.ctxopt%d.refused-by-gater", dir, opt))
+	}
 	if refused {
 		out.Cover(name + ".refused-by-gater")
 	}
@@ -592,12 +661,43 @@ func TestVerifC10E2E(t *testing.T) {
 	thorough := verifh.Tier() == "thorough"
 	r := verifh.NewRand(verifh.Seed() + 77)
 	type job struct {
-		tpt, dir     int
-		v6, mapped   bool
-		calls        []e2eCall
-		seed         byte
+		tpt, dir, opt int
+		v6, mapped    bool
+		calls         []e2eCall
+		seed          byte
 	}
 	var jobs []job
+	// systematic: every dial-context option against a remote blocked by address
+	// and by subnet (and by peer), outbound; a QUIC hole punch in flight while the
+	// remote is blocked by peer / address / subnet (and not at all), inbound
+	sys := [][]e2eCall{
+		{{kind: 1, ip: net.IP{127, 0, 0, 1}}},
+		{{kind: 2, n: cidr("127.0.0.0/8")}},
+		{{kind: 0, p: 1}},
+	}
+	sysT := []int{tptTCP}
+	if thorough {
+		sysT = []int{tptTCP, tptQUIC, tptWS, tptWT}
+		sys = append(sys, []e2eCall{{kind: 1, ip: mapped(net.IP{127, 0, 0, 1})}, {ev: 4}}, []e2eCall{})
+	}
+	k := 0
+	for _, tp := range sysT {
+		for opt := 0; opt <= 4; opt++ {
+			for _, c := range sys {
+				k++
+				jobs = append(jobs, job{tpt: tp, dir: 0, opt: opt, calls: c, seed: byte(100 + k)})
+			}
+		}
+	}
+	hp := [][]e2eCall{{}, {{kind: 0, p: 1}}, {{kind: 1, ip: net.IP{127, 0, 0, 1}}}, {{kind: 2, n: cidr("127.0.0.0/8")}}}
+	if thorough {
+		hp = append(hp, []e2eCall{{kind: 1, ip: mapped(net.IP{127, 0, 0, 1})}, {ev: 4}}, []e2eCall{{kind: 2, n: cidr("127.0.0.1/32")}},
+			[]e2eCall{{kind: 0, p: 1}, {kind: 0, opk: 1, p: 1}}, []e2eCall{{kind: 0, p: 2}, {kind: 2, n: cidr("::/0")}})
+	}
+	for _, c := range hp {
+		k++
+		jobs = append(jobs, job{tpt: tptQUIC, dir: 1, opt: 5, calls: c, seed: byte(100 + k)})
+	}
 	n := 48
 	tpts := []int{tptTCP, tptTCP, tptTCP, tptQUIC}
 	if thorough {
@@ -606,7 +706,12 @@ func TestVerifC10E2E(t *testing.T) {
 	}
 	for i := 0; i < n; i++ {
 		v6 := r.Chance(1, 3)
-		jobs = append(jobs, job{tpt: tpts[i%len(tpts)], dir: (i / len(tpts)) % 2, v6: v6, mapped: r.Chance(1, 2),
+		dir := (i / len(tpts)) % 2
+		opt := 0
+		if dir == 0 {
+			opt = r.Intn(5)
+		}
+		jobs = append(jobs, job{tpt: tpts[i%len(tpts)], dir: dir, opt: opt, v6: v6, mapped: r.Chance(1, 2),
 			calls: e2eScenarios(r, v6), seed: byte(i)})
 	}
 	sem := make(chan struct{}, 6)
@@ -617,7 +722,7 @@ func TestVerifC10E2E(t *testing.T) {
 		go func(j job) {
 			defer wg.Done()
 			defer func() { <-sem }()
-			e2eRun(t, out, j.tpt, j.dir, j.v6, j.mapped, j.calls, j.seed)
+			e2eRun(t, out, j.tpt, j.dir, j.opt, j.v6, j.mapped, j.calls, j.seed)
 		}(j)
 	}
 	wg.Wait()
@@ -635,7 +740,7 @@ func TestVerifC10E2EReplay(t *testing.T) {
 	if len(in) < 8 || in[0] != 1 {
 		t.Skip("not an end-to-end case")
 	}
-	dir, tpt := int(in[1]), int(in[2])
+	dir, tpt, opt := int(in[1]), int(in[2])%16, int(in[2])/16
 	nc := int(in[4])
 	pos := 5
 	decIP := func(f []int64) net.IP {
@@ -676,5 +781,5 @@ func TestVerifC10E2EReplay(t *testing.T) {
 	na := int(in[pos+1])
 	first := in[pos+2 : pos+8]
 	v6 := first[1] == 16 && !(first[2] == 0 && first[3] == 0 && first[4] == 0xffff)
-	e2eRun(t, out, tpt, dir, v6, na > 1, calls, 200)
+	e2eRun(t, out, tpt, dir, opt, v6, na > 1, calls, 200)
 }
